@@ -256,9 +256,63 @@ def r16d(ctx, rep, cr):
     rep.floor('R16d', 'hashing loops', n, 2)
 
 
+def r16e(ctx, rep, cr):
+    rep.rule('R16e', 'the verifier proves a block at every height: Chain::verify_chain fetches blocks one height at a time inside a loop and '
+                     'the `no block stored at this height` outcome (None) of that fetch cannot reach a success return — or, if it fetches in '
+                     'bulk, the number of blocks fetched is compared with the recorded height on the way to Ok. A verifier that silently '
+                     'skips missing heights accepts a chain whose tip or tail was deleted')
+    f = rep.require_fn('R16e', cr, CH + 'verify_chain')
+    if f is None:
+        return
+    uses = A.Uses(f)
+    defs = A.Defs(f)
+    fetch = [c for c in A.calls_to(f, ('re', r'Chain::(get_block_at|get_block)$')) if c.bb in A.reachable(f, [c.target])]
+    ok_a = False
+    for c in fetch:
+        tainted = lib.forward_taint(f, {c.dest[0]})
+        for l in sorted(tainted):
+            if not f.locals[l].startswith('std::option::Option<'):
+                continue
+            o = A.outcome_edges(f, l, 'option', uses)
+            if not o.err:
+                continue
+            if not lib.success_return_reachable(f, [t for (_, t) in o.err]):
+                ok_a = True
+    if ok_a:
+        rep.holds('R16e', f, 'per-height existence', 'a missing block at any height up to the tip is an error')
+        return
+    # bulk form: len(fetched) compared with the height on a must-pass edge to every success return
+    ok_b = False
+    bulk = A.calls_to(f, ('re', r'Chain::get_blocks_range$'))
+    if bulk:
+        tainted = set()
+        for c in bulk:
+            tainted |= lib.forward_taint(f, {c.dest[0]})
+        hts = set()
+        for c in A.calls_to(f, ('re', r'Chain::height$')):
+            hts |= lib.forward_taint(f, {c.dest[0]})
+        rets = lib.success_return_reachable(f, [0])
+        for r_ in rets[-1:]:
+            for (a, s_) in A.must_pass_edges(f, r_):
+                l = lib.switch_local(f, a)
+                d = A.single_def(defs, l) if l is not None else None
+                if d and d[2] == 'st' and d[3][1][0] == 'bin' and d[3][1][1] in ('Eq', 'Ne', 'Lt', 'Le', 'Gt', 'Ge'):
+                    sides = [A.backward_slice(f, [d[3][1][i]], defs) for i in (2, 3)]
+                    if any((sl.locals & tainted) and any(x.endswith('::len') for x in sl.calls) for sl in sides) and any(sl.locals & hts for sl in sides):
+                        ok_b = True
+    if ok_b:
+        rep.holds('R16e', f, 'bulk count check', 'number of fetched blocks compared with the height')
+    else:
+        rep.violation('R16e', f, 'missing-height-accepted', f.loc(),
+                      'verify_chain does not turn `no block at height h` into an error for every h up to the recorded height (per-height '
+                      'fetches in a loop: %d; bulk fetches: %d, none with a count check): deleting the tip block or any tail leaves '
+                      'verify() returning Ok while height() and tip_hash() name a missing block' % (len(fetch), len(bulk)))
+
+
 def run(ctx, rep):
     cr = ctx.crate('tensor_chain')
     r16a(ctx, rep, cr)
     r16b(ctx, rep, cr)
     r16c(ctx, rep, cr)
     r16d(ctx, rep, cr)
+    r16e(ctx, rep, cr)
